@@ -12,8 +12,7 @@ import (
 
 // initcovExempt: fields that a method changes but Init deliberately leaves alone.
 var initcovExempt = map[string]string{
-	"Parser.next":         "not Init's job: every parse() redefines p.next before reading it (FRESH(lookahead), TYPESTATE(lookahead))",
-	"Parser.recovering":   "not Init's job: parse() resets it before the main loop (VARIANT recovering-reset)",
+	"Parser.next":         "every parse() redefines p.next before reading it (FRESH(lookahead), TYPESTATE(lookahead))",
 	"Lexer.value":         "the semantic value is assigned by the action of the token that carries one and read only for that token",
 	"TokenStream.lastEnd": "js only: read solely as the offset of an inserted semicolon; before the first token of an input every candidate insertion would form an empty statement, which insertSC refuses (stateAfterSC == emptyStatementState), and recoveryMode is reset by Init",
 }
@@ -139,6 +138,12 @@ func ruleINITCOV(c *Ctx, typeNames ...string) {
 				return out
 			}
 			initW := writes(initFn, map[*ssa.Function]bool{}, true)
+			if tn == "Parser" {
+				// A Parser is initialised once and then parses any number of inputs (Parse* may be
+				// called again without Init: the generated benchmarks and ast.Parse helpers do).
+				// Its run state must therefore be reset by parse() itself; Init does not count.
+				initW = map[string]token.Pos{}
+			}
 			// run state of a Parser may equally be reset by the first block of parse(), through
 			// which every Parse* entry point goes
 			for _, m := range others {
@@ -201,7 +206,11 @@ func ruleINITCOV(c *Ctx, typeNames ...string) {
 				} else if why, ok := initcovExempt[tn+"."+f]; ok {
 					c.Ok(rule, key, initFn.Pos(), "exempt: %s", why)
 				} else {
-					c.Bad(rule, key, initFn.Pos(), "field %s of %s is modified by %s but assigned neither by Init on every path nor by the first block of parse(): its value from the previous input survives the re-initialisation", f, tn, changed[f])
+					if tn == "Parser" {
+						c.Bad(rule, key, initFn.Pos(), "field %s of Parser is modified by %s while parsing but is not reset by the first block of parse(): Parse* can be called again without Init, so its value from the previous input leaks into the next parse", f, changed[f])
+					} else {
+						c.Bad(rule, key, initFn.Pos(), "field %s of %s is modified by %s but assigned neither by Init on every path nor by the first block of parse(): its value from the previous input survives the re-initialisation", f, tn, changed[f])
+					}
 				}
 			}
 		}
